@@ -66,7 +66,7 @@ def handle : List String → String
       | none => "bad-op"
   | ["env", h] =>
       match stringOfHex h with
-      | some v => "parse:" ++ showWords (parseCmd .unq (dqRender v.toList) [] [])
+      | some v => "parse:" ++ showWords (parseCmd .unq (envRender v.toList) [] [])
       | none => "bad-op"
   | _ => "bad-op"
 
